@@ -284,7 +284,7 @@ Fixpoint future_spec (b : fbody) (done : bool) (acts : list fact) (rs : list fre
       | FDerefTimed tv | FDeref tv =>
           (if done
            then match b with FBVal z => fres_eqb r (FRet z) | FBRaise e => fres_eqb r (FExc e) end
-           else match a with FDerefTimed _ => fres_eqb r (FRet tv) | _ => false end)
+           else match a with FDerefTimed _ => fres_eqb r (FRet tv) | _ => fres_eqb r FUnit end)
           && future_spec b done ar rr
       end
   | _, _ => false
